@@ -122,6 +122,35 @@ pub fn handle(op: &str, a: &[&str]) -> Option<String> {
                 }
             }
         }
+        ("lanczos", [nrows, ncols, data]) => {
+            // answer: `<Y0> <mask/W/Y|...|final Y>` (Y0 = the block returned by genblock), or `panic <Y0>`
+            let cols = sparse_of(ncols.parse().ok()?, data)?;
+            let mat = SparseMat { k: nrows.parse().ok()?, cols };
+            vs::genblock_start(0);
+            let _ = vs::lanczos_iters_take();
+            let _ = vh::take_y();
+            let r = std::panic::catch_unwind(std::panic::AssertUnwindSafe(|| {
+                gf2::kernel_lanczos(&mat, yamaquasi::Verbosity::Silent)
+            }));
+            let ys = vs::genblock_take();
+            let y0 = match ys.last() {
+                Some(y) => show_words(y),
+                None => return Some("panic".to_string()),
+            };
+            let iters = vs::lanczos_iters_take();
+            let yfin = vh::take_y();
+            match (r, yfin) {
+                (Ok(_), Some(yf)) => {
+                    let mut parts: Vec<String> = iters
+                        .iter()
+                        .map(|(m, w, y)| format!("{:x}/{}/{}", m, show_words(w), show_words(y)))
+                        .collect();
+                    parts.push(show_words(&yf));
+                    Some(format!("{} {}", y0, parts.join("|")))
+                }
+                _ => Some(format!("panic {}", y0)),
+            }
+        }
         _ => None,
     }
 }
